@@ -299,7 +299,14 @@ fn run_receive(ctx: &RunCtx) -> RunOut {
         driver: Option<COut>,
         build_err: Option<String>,
         inflight: Option<Result<(), SOut>>,
+        at_accept: Option<Vec<(u64, u64)>>,
     }
+    // server role, one run in two: the client also sends a request, some turns after its SETTINGS. If the SETTINGS
+    // frame had been delivered completely before the request was even written, the settings must be in effect
+    // when accept() hands that request out (accept() reads the control stream before it looks for requests).
+    let with_request = role_server && draw(2) == 1;
+    let request_gap = draw(8);
+    let settings_first = Rc::new(std::cell::Cell::new(false));
     let ahead = if draw(4) == 3 { 1 + draw(2) } else { 0 };
     let rec: Rc<RefCell<Rec>> = Default::default();
     let gate = Rc::new(Gate::default());
@@ -310,6 +317,7 @@ fn run_receive(ctx: &RunCtx) -> RunOut {
         let net = net.clone();
         let payload = payload.clone();
         let written = written.clone();
+        let settings_first2 = settings_first.clone();
         ex.spawn("peer", async move {
             for _ in 0..delay {
                 exec::yield_now().await;
@@ -334,6 +342,18 @@ fn run_receive(ctx: &RunCtx) -> RunOut {
             b.extend(frame_forms(frames::SETTINGS, &payload));
             written.set(true);
             n.raw_write(id, peer, &b);
+            if with_request {
+                drop(n);
+                for _ in 0..request_gap {
+                    exec::yield_now().await;
+                }
+                let mut n = net.lock().unwrap();
+                let d = n.dir_ref(id, peer).unwrap();
+                settings_first2.set(d.delivered == d.sent.len());
+                n.raw_open(0);
+                n.raw_write(0, CLIENT, &super::peer::headers_frame(&super::peer::request_fields("GET", "/c13")));
+                n.raw_fin(0, CLIENT);
+            }
         });
     }
     let conn: SimConn = net::conn(&net, h3side);
@@ -355,11 +375,23 @@ fn run_receive(ctx: &RunCtx) -> RunOut {
                 if !written.get() {
                     rec.borrow_mut().early = read_settings(&c);
                 }
-                match super::e2e::accept_or_gate(&mut c, Some(&gate)).await {
-                    super::e2e::Accepted::Err(e) => rec.borrow_mut().driver = Some(cout(&e)),
-                    _ => {}
+                let mut kept = vec![];
+                loop {
+                    match super::e2e::accept_or_gate(&mut c, Some(&gate)).await {
+                        super::e2e::Accepted::Err(e) => {
+                            rec.borrow_mut().driver = Some(cout(&e));
+                            break;
+                        }
+                        super::e2e::Accepted::Request(resolver) => {
+                            // what the application sees when it is handed the request
+                            rec.borrow_mut().at_accept = Some(read_settings(&resolver));
+                            kept.push(resolver);
+                        }
+                        _ => break,
+                    }
                 }
                 rec.borrow_mut().late = read_settings(&c);
+                drop(kept);
             });
         } else {
             ex.spawn("client", async move {
@@ -466,6 +498,17 @@ fn run_receive(ctx: &RunCtx) -> RunOut {
             if let Some(v) = applied_mismatch(all, &o.late, &defaults) {
                 return mk("C13.setting_not_applied_exactly", v);
             }
+            if with_request && settings_first.get() {
+                obs::count("probe.request_written_after_settings_were_delivered");
+                match &o.at_accept {
+                    None => return mk("C13.request_not_handed_out", "the request written after the SETTINGS was never handed out by accept()".into()),
+                    Some(seen) => {
+                        if let Some(v) = applied_mismatch(all, seen, &defaults) {
+                            return mk("C13.settings_delivered_before_the_request_not_in_effect_at_accept", format!("the SETTINGS frame had been delivered completely before the request was written, yet when accept() handed the request out: {v}"));
+                        }
+                    }
+                }
+            }
             if inflight {
                 obs::count("probe.request_in_flight_while_settings_arrive");
                 let want_refused = inflight_size > advertised;
@@ -519,7 +562,7 @@ impl Check for C13 {
     fn meta(&self) -> Meta {
         Meta {
             level: "exploration",
-            rule: "send: the full product of builder options in systematic order (client: 3 booleans x 11 sizes; server: 4 booleans x 11 x 11 sizes; sizes {0,1,63,64,16383,16384,2^30-1,2^30,2^62-1,2^62,u64::MAX}; 2024 configurations, run index mod 2024) each set up over SimQuic with a drawn write schedule (partial acceptance down to 1 byte, pends, scarce stream credit) and parsed by the reference SETTINGS parser; receive: SETTINGS payloads (0-6 entries over known, unknown, grease and maximal ids, boolean and boundary values, all varint forms, in drawn order, with at most one deviation: repeated known id, repeated unknown id, HTTP/2-reserved id, truncated entry) delivered under drawn chunkings after a drawn delay to both roles, in one run in four behind an idle or a grease unidirectional stream opened first; applied values read back through the settings accessors before (defaults) and after; client role, one run in two: a request whose field-section size is at or one above the advertised SETTINGS_MAX_FIELD_SECTION_SIZE (or above a tiny one) is in flight - send_request() waiting for stream credit - while the SETTINGS arrive, and must be refused or sent according to the advertised value once the credit comes; non-trivial = every run; distinct = distinct schedule signatures",
+            rule: "send: the full product of builder options in systematic order (client: 3 booleans x 11 sizes; server: 4 booleans x 11 x 11 sizes; sizes {0,1,63,64,16383,16384,2^30-1,2^30,2^62-1,2^62,u64::MAX}; 2024 configurations, run index mod 2024) each set up over SimQuic with a drawn write schedule (partial acceptance down to 1 byte, pends, scarce stream credit) and parsed by the reference SETTINGS parser; receive: SETTINGS payloads (0-6 entries over known, unknown, grease and maximal ids, boolean and boundary values, all varint forms, in drawn order, with at most one deviation: repeated known id, repeated unknown id, HTTP/2-reserved id, truncated entry) delivered under drawn chunkings after a drawn delay to both roles, in one run in four behind an idle or a grease unidirectional stream opened first; applied values read back through the settings accessors before (defaults) and after; server role, one run in two: the client also sends a request some turns after its SETTINGS, and if the SETTINGS frame had been delivered completely before the request was written the settings must be in effect when accept() hands the request out; client role, one run in two: a request whose field-section size is at or one above the advertised SETTINGS_MAX_FIELD_SECTION_SIZE (or above a tiny one) is in flight - send_request() waiting for stream credit - while the SETTINGS arrive, and must be refused or sent according to the advertised value once the credit comes; non-trivial = every run; distinct = distinct schedule signatures",
             real: &["h3 client/server builders, Config -> SETTINGS conversion and encoding, control stream setup", "SETTINGS decoding, validation and application (frame::Settings::decode, config::Settings::from, shared state)"],
             stub: &["QUIC transport (SimQuic)", "executor (simexec)", "peer (script, reference SETTINGS printer/parser)"],
             assumptions: &["a configured value that a varint cannot carry may be sent as 2^62-1 or refused by build() with an error, but must not panic", "a repeated unknown identifier may be ignored or rejected with H3_SETTINGS_ERROR"],
